@@ -401,6 +401,9 @@ void checkExpectation(const Op& op, const Delivery& d, const std::string& wire, 
         if (m.first.size() > kMaxStr)
           longStr = true;
     });
+    // (without \\u decoding every escape stays six characters long: the stored string is longer than the value's)
+    if (!d.msgpack && !kDecodeUnicode && wire.find("\\u") != std::string::npos && wire.size() > kMaxStr)
+      longStr = true;
     if (longStr || slots + 8 > size_t(verif::Inspector::NULLSLOT)) {
       count("xfer.nomemory_by_capacity");
       return;
@@ -769,6 +772,18 @@ void opStream(const Op& op, Ctx& cx) {
         p++;
     }
   }
+  // comments that go with the separators where the build's dialect has comments (they are blanks there)
+  std::vector<std::string> cmts;
+  if (kComments && op.has("cmts")) {
+    std::string all = op.str("cmts");
+    size_t p = 0;
+    while (p < all.size()) {
+      cmts.push_back(unquote(all, p));
+      if (p < all.size() && all[p] == '|')
+        p++;
+    }
+    count("stream.with_comments");
+  }
   std::vector<size_t> chunks;
   if (op.has("chunks")) {
     std::stringstream ss(op.str("chunks"));
@@ -797,6 +812,8 @@ void opStream(const Op& op, Ctx& cx) {
         if (j > 0 && docs.a[j - 1].isNum() && (sep.empty() || std::string(" \t\r\n").find(sep[0]) == std::string::npos))
           sep = "\n" + sep;
         wire += sep;
+        if (j < cmts.size())
+          wire += cmts[j];
       }
       pc.valueStart = wire.size();
       if (mp) {
@@ -1679,6 +1696,31 @@ Plan generate(const std::string& mode, uint64_t seed, uint64_t run) {
     static const char* kj[] = {"cptr", "cptr_n", "istream", "custom", "std", "astring"};
     op.set("kinds", kj[r.below(6)]);
     p.ops.push_back(op);
+  } else if (mode == "deep" && !mp && r.chance(1, 10)) {
+    // not nesting at all: thousands of comments (or blanks) at ONE place of a flat text. The stack the parser uses
+    // must not grow with them (the monitor at the reader seam compares it with the bound for this nesting limit).
+    int L = 1 + int(r.below(4));
+    Op op = mkop("deser");
+    fmt(op);
+    op.set("nl", L);
+    size_t n = size_t(r.range(2000, 30000));
+    std::string filler;
+    unsigned what = unsigned(r.below(4));
+    for (size_t j = 0; j < n; j++)
+      filler += what == 0 ? "/**/" : what == 1 ? "//\n" : what == 2 ? (j & 1 ? "/* x */ " : "//y\n") : " \n";
+    unsigned where = unsigned(r.below(4));
+    std::string b = where == 0 ? filler + "[1,2]" : where == 1 ? "[" + filler + "1,2]" : where == 2 ? "[1" + filler + ",2]" : "{\"a\":" + filler + "[1,2]}";
+    std::string value = where == 3 ? "{\"a\":[u1,u2]}" : "[u1,u2]";
+    if (what != 3)
+      op.set("needs", "comments");
+    op.setq("b", b).set("expect", "Ok").set("value", value).setq("why", "a flat text with a long run of comments or blanks at one place");
+    if (where == 3 && L < 2)
+      op.set("nl", 2);
+    if (r.chance(1, 3))
+      op.set("filter", where == 3 ? "{\"b\":t}" : "f");
+    static const char* ks[] = {"custom", "istream", "astream", "custom"};
+    op.set("kinds", ks[r.below(4)]);
+    p.ops.push_back(op);
   } else if (mode == "deep") {
     // (counted at execution: see code.TooDeep / probe counters)
     // hostile peer: nesting well beyond the limit, or exactly at / one above it
@@ -1903,6 +1945,17 @@ Plan generate(const std::string& mode, uint64_t seed, uint64_t run) {
       seps += quote(mp ? "" : wss[r.below(8)]);
     }
     op.set("seps", seps);
+    if (!mp && r.chance(1, 3)) {
+      // (only used by builds whose dialect has comments)
+      static const char* cs[] = {"", "/**/", "/***/", "/* x **/", "//\n", "// a */ b\n", "/*/ */", "/* \" ] */ ", "/****/\n", "/* * / */", "//*/\n/**/"};
+      std::string cm;
+      for (size_t j = 0; j < n; j++) {
+        if (j)
+          cm += '|';
+        cm += quote(cs[r.below(11)]);
+      }
+      op.set("cmts", cm);
+    }
     static const char* ks[] = {"istream", "custom", "astream"};
     op.set("kind", ks[r.below(3)]).set("chunks", chunkSpec(r));
     // two different tails: the results of the calls must not depend on them
